@@ -26,7 +26,7 @@ ASSUMPTIONS = ['workloads use only flows configured in every scheduler on their 
                'missing at quiescence is a loss']
 PROBES = ['tick_clock', 'fast_link', 'fib_replaced', 'elem_RED', 'red_drop', 'sched_many_to_one', 'elem_Port', 'elem_Wire', 'elem_TB', 'elem_TRTB', 'elem_SP', 'elem_WFQ', 'elem_VC', 'elem_DRR', 'elem_RR',
           'elem_WRR', 'elem_FlowDemux', 'elem_FIBDemux', 'elem_SimpleSwitch', 'elem_FairSwitch', 'tail_drop', 'wire_loss',
-          'no_route', 'fan_in', 'fan_out', 'generator', 'sink_per_src', 'sink_interarrival']
+          'end_devices_at_demux', 'no_route', 'fan_in', 'fan_out', 'generator', 'sink_per_src', 'sink_interarrival']
 
 SCHEDS = {'SP': SP, 'WFQ': WFQ, 'VC': VC, 'DRR': DRR, 'RR': RR, 'WRR': WRR}
 
@@ -113,6 +113,10 @@ def gen_stage(rng, flows, allow_fan=True, depth=0, tick=False):
               'default': gen_chain(rng, flows, rng.randint(0, 1), False, tick) if rng.random() < 0.5 else None}
         if k == 'FIBDemux':
             st['fib'] = [[f, rng.randrange(nb)] for f in flows if rng.random() < 0.85]
+            if rng.random() < 0.3:
+                # hosts attached to this node: end devices registered for some flows (they take precedence over the
+                # table; the other flows are still routed, or fall back to the default output)
+                st['ends'] = [f for f in flows if rng.random() < 0.3]
             if rng.random() < 0.3:
                 st['fib_updates'] = gen_fib_updates(rng, flows, nb)
         return st
@@ -266,6 +270,8 @@ class Builder:
                 obj = FlowDemux(tapped, dtap)
             else:
                 obj = FIBDemux(outs=tapped, fib=dict((f, p) for f, p in st.get('fib', [])), default_out=dtap)
+                for f in st.get('ends', []):
+                    obj.ends[f] = OutTap(w, '%s>e%s' % (name, f), None, self.sink())
                 self.retable(name, obj, st)
             node = Node(name, t, obj, st)
             self.nodes.append(node)
@@ -483,8 +489,11 @@ def check(w, case, b, gens):
         elif t == 'FIBDemux':
             fib = _fib_at(node, evs)
             nb = len(node.spec.get('branches', []))
-            allowed = sum(1 for g, tt, pkt, f in I if not (f[1] in fib(g) and 0 <= fib(g)[f[1]] < nb)) \
+            ends = set(node.spec.get('ends', []))
+            allowed = sum(1 for g, tt, pkt, f in I if f[1] not in ends and not (f[1] in fib(g) and 0 <= fib(g)[f[1]] < nb)) \
                 if node.spec.get('default') is None else 0
+            if ends:
+                stats['end_devices_at_demux'] = 1
             if evs.get(nm):
                 stats['fib_replaced'] = 1
             why = '%d packets of unknown flows and no default' % allowed
